@@ -716,6 +716,12 @@ func (d *drv) merge(jobs []*job) (okRoots, nValid int) {
 			rep.Count(c)
 		}
 		if j.rec == nil {
+			if j.in.Stream == "reuse" {
+				rep.Distinct(j.dkey + "|" + fmt.Sprint(len(j.rep.Failures)))
+				if len(j.rep.Failures) > 0 {
+					rep.Sample(map[string]any{"kind": j.in.Kind, "prev": json.RawMessage(j.in.Prev), "doc": json.RawMessage(j.in.Doc), "failure": j.rep.Failures[0].What})
+				}
+			}
 			continue
 		}
 		d.cases = append(d.cases, j.rec)
@@ -744,7 +750,7 @@ func Run(cfg *common.Config) (*common.Report, error) {
 	tStart := time.Now()
 	rep := common.NewReport("C14")
 	rep.Correspondence = "Codec.Run.cmismatches: cred_decode / cred_encode / cred_merklize_doc / did_decode / did_encode (coq/Codec/Model.v on the descriptors of coq/Generated/Structs.v) vs json.Unmarshal / json.Marshal on verifiable.W3CCredential and verifiable.DIDDocument and the document W3CCredential.Merklize hands to merklize.MerklizeJSONLD (Merklizer.VerifSrcDoc)"
-	rep.Rule = "credential documents of the supported shape with every optional member on/off (id, dates in 8x5x11x10 spellings, credentialStatus, refreshService, displayMethod, null optionals), shuffled member order, random subject objects (strings, integers, doubles, big numbers, booleans, dates, nested objects, arrays), 0..4 proofs of the three known and of unknown types in array / single-object / empty / absent form; documents outside the shape (odd dates, wrong member types, unknown / case-variant / duplicated members, broken proofs); DID documents with reference / embedded authentication entries, state info and GIST proofs. distinct = distinct (stream, feature set, decode outcome, proof kinds) tuples; non-trivial = the document has at least one optional member, proof or non-default spelling."
+	rep.Rule = "credential documents of the supported shape with every optional member on/off (id, dates in 8x5x11x10 spellings, credentialStatus, refreshService, displayMethod, null optionals), shuffled member order, random subject objects (strings, integers, doubles, big numbers, booleans, dates, nested objects, arrays), 0..4 proofs of the three known and of unknown types in array / single-object / empty / absent form; documents outside the shape (odd dates, wrong member types, unknown / case-variant / duplicated members, broken proofs); DID documents with reference / embedded authentication entries, state info and GIST proofs; re-use streams (document A then B into the same variable, duplicated authentication member) and a purity stream (Merklize / ToCoreClaim / VerifyProof with the loader going offline at fetch 1..3 and failing / answering resolvers, credential compared before/after). distinct = distinct (stream, feature set, decode outcome, proof kinds) tuples; non-trivial = the document has at least one optional member, proof or non-default spelling."
 	loader := ctxload.New()
 	if err := loader.Add(ctxURL, []byte(ctxDoc)); err != nil {
 		return nil, err
@@ -823,6 +829,7 @@ func Run(cfg *common.Config) (*common.Report, error) {
 			e.Set("addedMember", Obj().Set("k", Num("1e2")))
 			in.Variants = append(in.Variants, string(e.Bytes()))
 		}
+		in.Purity = i%3 == 0
 		j := &job{in: in, feat: g.feat, dkey: "valid", sample: i%40 == 0, isValid: true}
 		for k := range g.feat {
 			j.counts = append(j.counts, "feature:"+k)
@@ -861,6 +868,14 @@ func Run(cfg *common.Config) (*common.Report, error) {
 		jobs = append(jobs, &job{in: in, feat: map[string]bool{}, dkey: "odd-did|" + what, counts: []string{"odd-did:" + what}})
 	}
 	t0 := time.Now()
+	// D. decode into a re-used value (hand-written codecs must give the fresh result)
+	nReuse := cfg.Pick(40, 300)
+	for i := 0; i < nReuse; i++ {
+		g.feat = map[string]bool{}
+		for _, in := range g.reuseInputs() {
+			jobs = append(jobs, &job{in: in, feat: map[string]bool{}, dkey: in.Kind + fmt.Sprint("|", i%7)})
+		}
+	}
 	d.runJobs(jobs)
 	t1 := time.Now()
 	okRoots, nv := d.merge(jobs)
